@@ -15,8 +15,8 @@ use std::sync::Arc;
 use std::time::{Duration, Instant};
 
 /// 0 Ok, 1 UnexpectedSocketClose, 2 IoErrorReadingSocket, 3 MalformedFrame, 4 IoErrorWritingSocket,
-/// 5 ServerClosedConnection(320), 6 MissedServerHeartbeats, 7 ClientException, 8 other, 9 hang
-fn close_code(r: &Option<amiquip::Result<()>>) -> u64 {
+/// 5 ServerClosedConnection(the server's code), 6 MissedServerHeartbeats, 7 ClientException, 8 other, 9 hang
+fn close_code(r: &Option<amiquip::Result<()>>, srv_code: u16) -> u64 {
     match r {
         None => 9,
         Some(Ok(())) => 0,
@@ -24,7 +24,7 @@ fn close_code(r: &Option<amiquip::Result<()>>) -> u64 {
         Some(Err(Error::IoErrorReadingSocket { .. })) => 2,
         Some(Err(Error::MalformedFrame)) => 3,
         Some(Err(Error::IoErrorWritingSocket { .. })) => 4,
-        Some(Err(Error::ServerClosedConnection { code: 320, .. })) => 5,
+        Some(Err(Error::ServerClosedConnection { code, .. })) if *code == srv_code => 5,
         Some(Err(Error::MissedServerHeartbeats)) => 6,
         Some(Err(Error::ClientException)) => 7,
         Some(Err(_)) => 8,
@@ -44,6 +44,9 @@ pub fn scenario(sub: u64) -> Option<(String, u64)> {
     // close() is already in flight (its Connection.Close is out, the server does not answer)
     // when the failure lands
     let close_first = !parked && [1u64, 2, 3, 5].contains(&fault) && rng.chance(1, 3);
+    // the code the server closes with: usually CONNECTION_FORCED, but any code is the server's to choose -
+    // 200 (reply-success) and 0 included
+    let srv_code: u16 = *rng.pick(&[320u16, 320, 200, 541, 0]);
     let nthreads = rng.range(1, 3) as usize;
     let delay_ms = rng.range(3, 60);
     // the connection is given up with drop instead of close in a quarter of the scenarios
@@ -128,7 +131,7 @@ pub fn scenario(sub: u64) -> Option<(String, u64)> {
                     Err(e) => {
                         std::mem::forget(ch);
                         return match e {
-                            Error::ServerClosedConnection { code: 320, .. } => 5,
+                            Error::ServerClosedConnection { code, .. } if code == srv_code => 5,
                             Error::EventLoopDropped => 2,
                             _ => 8,
                         };
@@ -183,7 +186,7 @@ pub fn scenario(sub: u64) -> Option<(String, u64)> {
             }
             peer.push_frames(&[AMQPFrame::Method(
             0,
-            AMQPClass::Connection(connection::AMQPMethod::Close(connection::Close { reply_code: 320, reply_text: "forced".into(), class_id: 0, method_id: 0 })),
+            AMQPClass::Connection(connection::AMQPMethod::Close(connection::Close { reply_code: srv_code, reply_text: "forced".into(), class_id: 0, method_id: 0 })),
             )]);
             if parked {
                 peer.set_wpolicy(WPolicy::All);
@@ -239,7 +242,7 @@ pub fn scenario(sub: u64) -> Option<(String, u64)> {
         (None, None) => None,
     };
     // 99: drop returned (it has no result); 9: it did not
-    let code = if use_drop && closed.is_some() { 99 } else { close_code(&closed) };
+    let code = if use_drop && closed.is_some() { 99 } else { close_code(&closed, srv_code) };
     // C08: the client's Connection.Close is the last frame it ever sent
     if fault == 0 && std::env::var("VH_DEBUG").is_ok() {
         match client_frames(&peer.out()) {
